@@ -22,7 +22,10 @@ INFO = {
                    "capacity+start-1; Optimal: hash_couple(d, i) = H(get_node(d, i&!1), get_node(d, (i&!1)+1)) unconditionally, "
                    "get_node = stored node or the level's cached default, update_hashes rehashes, level by level, every parent of the changed range [first>>1, last>>1] "
                    "starting from (index, index+length-1) until depth 0, and set/set_range hand it (index, 1) / (start, len); both constructors build the default cache as "
-                   "cache[l] = H(cache[l+1], cache[l+1]); root() is node 0 / get_node(0, 0).",
+                   "cache[l] = H(cache[l+1], cache[l+1]); root() is node 0 / get_node(0, 0). R06-4 the persistent adapter delegates: set/delete/update_next/set_range/get/root/"
+                   "leaves_set/depth/capacity/proof each call pmtree's operation of the same name with the caller's arguments exactly once and before any branch. "
+                   "R06-5 get_subtree_root(n, index) in the three back ends: two bounds rejections, level 0 = root(), level depth = get(index), level n = the node "
+                   "(n, index >> (depth - n)) - in the full tree as a climb of depth - n parents ((i+1)>>1)-1 from node 2^depth + index - 1 (or the equivalent closed form).",
     "not_decided": "equality of roots/leaves with the ideal tree as values over histories (numeric; Poseidon opaque), pmtree's internals",
     "assumptions": ["pmtree's mutators are atomic on their own errors"],
 }
@@ -456,12 +459,177 @@ def check_recompute(ctx, fb):
     ctx.check(okf, "R06-3", "full::new default cache", "successors(initial_leaf, |p| H(p, p))", "default-node cache is not built by hashing each level with itself", loc(it))
 
 
+PM_DELEGATES = {
+    # adapter operation -> (pmtree operation, expected leading arguments after the tree)
+    "set": ("set", (P(2), P(3))), "delete": ("delete", (P(2),)), "update_next": ("update_next", (P(2),)), "set_range": ("set_range", (P(2),)),
+    "get": ("get", (P(2),)), "root": ("root", ()), "leaves_set": ("leaves_set", ()), "depth": ("depth", ()), "capacity": ("capacity", ()), "proof": ("proof", (P(2),)),
+}
+
+
+def check_delegation(ctx, fb):
+    """R06-4: the persistent adapter is a pass-through: each operation calls pmtree's operation of the same name with the caller's
+    arguments, exactly once, before any branch - so what pmtree reports (values, high-water mark, root) is what the adapter reports"""
+    n = 0
+    for m, (op, args) in sorted(PM_DELEGATES.items()):
+        it = c15.get(fb, "pmtree", m)
+        if it is None:
+            raise MissingAnchor("pmtree::%s" % m)
+        ctx.touch(it)
+        eng = Engine(fb, inline=lambda i: False)
+        ok, why = True, ""
+        npaths = 0
+        for p in eng.run(it):
+            npaths += 1
+            calls = [(i, e) for i, e in enumerate(p.trace) if e[0] == "call" and re.search(r"MerkleTree::<D, H>::%s$" % op, e[1])]
+            conds = [(i, e) for i, e in enumerate(p.trace) if e[0] == "cond"]
+            if m == "set_range" and conds and conds[0][1][1] == ("b", ("is_empty", P(3))):
+                # the one admitted branch: an empty batch writes nothing (in the ideal tree too) and is not handed to pmtree (R08-6)
+                if conds[0][1][2] is True:
+                    if calls or mutation_events(p):
+                        ok, why = False, "the empty-batch branch still changes the tree"
+                        break
+                    continue
+                conds = conds[1:]
+            firstcond = min([i for i, e in conds] or [len(p.trace)])
+            if len(calls) != 1:
+                ok, why = False, "a path makes %d calls to pmtree's %s (specification: exactly one)" % (len(calls), op)
+                break
+            i, e = calls[0]
+            if i > firstcond:
+                ok, why = False, "pmtree's %s is called only under a condition (%s): on the other branch %s" % (op, sh(p.trace[firstcond][1], 100),
+                    "the operation has no effect on the stored tree" if m in ("set", "delete", "update_next", "set_range") else "the result does not come from the stored tree")
+                break
+            got = tuple(e[2][1:1 + len(args)])
+            if e[2][0] != F(P(1), "tree") or got != args:
+                ok, why = False, "pmtree's %s receives %s, specification (self.tree, %s)" % (op, sh(e[2], 120), ", ".join(sh(a, 20) for a in args))
+                break
+            if m == "set_range" and not contains(e[2][2], P(3)):
+                ok, why = False, "set_range passes values %s, specification the caller's values" % sh(e[2][2], 100)
+                break
+        ctx.check(ok and npaths >= 1, "R06-4", "pmtree::%s delegates" % m, "calls pmtree::%s(self.tree%s) once, unconditionally" % (op, "".join(", " + sh(a, 20) for a in args)), why, loc(it))
+        n += 1
+    ctx.floor("pmtree-delegates", n, 10)
+
+
+def check_subtree_root(ctx, fb):
+    """R06-5: get_subtree_root(n, index) = root of the level-n subtree that contains leaf `index`: node (n, index >> (depth - n))"""
+    for name in ("pmtree", "optimal", "full"):
+        it = c15.get(fb, name, "get_subtree_root")
+        if it is None:
+            raise MissingAnchor("%s::get_subtree_root" % name)
+        ctx.touch(it)
+        eng = Engine(fb, inline=inline_only(r"ZerokitMerkleTree>::(capacity|depth)$|::parent$"))
+        paths = eng.run(it)
+        depth = F(P(1), "depth") if name != "pmtree" else ("call", None, None)
+        why = None
+        seen = {"root": 0, "leaf": 0, "node": 0, "err": 0}
+        carried = {}
+        for p in paths:
+            cm = cond_map(p)
+
+            def is_depth(t):
+                return t == F(P(1), "depth") or (isinstance(t, tuple) and t and t[0] == "call" and re.search(r"::depth$", t[1]))
+            lvl = [(a, v) for a, v in p.conds() if a[0] == "b" and a[1][0] == "bin" and a[1][1] == "Gt" and a[1][2] == P(2) and is_depth(a[1][3])]
+            cap = [(a, v) for a, v in p.conds() if a[0] == "b" and a[1][0] == "bin" and a[1][1] == "Ge" and a[1][2] == P(3)]
+            z = [(a, v) for a, v in p.conds() if a[0] == "b" and a[1][:3] == ("bin", "Eq", P(2)) and cint(a[1][3]) == 0]
+            d = [(a, v) for a, v in p.conds() if a[0] == "b" and a[1][:3] == ("bin", "Eq", P(2)) and is_depth(a[1][3])]
+            if p.kind == "backedge":
+                for nm in ("idx", "nd"):
+                    v = carried_value(it, p, nm)
+                    if v is not None:
+                        carried.setdefault(nm, set()).add(v)
+                continue
+            if p.kind != "return":
+                continue
+            rv = eng.value_of(p.store, p.ret)
+            if known_ok(rv) is False:
+                seen["err"] += 1
+                if not ((lvl and lvl[0][1] is True) or (cap and cap[0][1] is True)):
+                    why = "an Err path is not one of the two bounds rejections"
+                continue
+            if not (lvl and lvl[0][1] is False and cap and cap[0][1] is False):
+                why = "a result is produced without the level/position bounds checks"
+                continue
+            if z and z[0][1] is True:
+                seen["root"] += 1
+                if not (known_ok(rv) is True and rv[4][0][0] == "call" and rv[4][0][1].endswith("::root") and rv[4][0][2] == (P(1),)):
+                    why = "level 0 returns %s, specification root()" % sh(rv, 80)
+                continue
+            if d and d[0][1] is True:
+                seen["leaf"] += 1
+                if not (rv[0] == "call" and rv[1].endswith("::get") and rv[2] == (P(1), P(3))):
+                    why = "level `depth` returns %s, specification get(index)" % sh(rv, 80)
+                continue
+            seen["node"] += 1
+            v = rv[4][0] if known_ok(rv) is True else rv
+
+            def shifted(t):
+                return (isinstance(t, tuple) and t[:2] == ("bin", "Shr") and t[2] == P(3) and isinstance(t[3], tuple) and t[3][:2] == ("bin", "Sub") and is_depth(t[3][2]) and t[3][3] == P(2))
+            if name == "optimal":
+                good = v[0] == "call" and v[1].endswith("get_node") and v[2][0] == P(1) and v[2][1] == P(2) and shifted(v[2][2])
+            elif name == "pmtree":
+                k = v[1] if v[0] == "unwrap" else None
+                good = bool(k) and k[0] == "call" and k[1].endswith("get_elem") and k[2][0] == F(P(1), "tree") and k[2][1][0] == "call" and k[2][1][1].endswith("Key::new") and k[2][1][2][0] == P(2) and shifted(k[2][1][2][1])
+            else:
+                # loop form: start at the leaf's node, climb one parent per level, stop after depth - n steps
+                ix = v[2][1] if (v[0] == "call" and len(v[2]) == 2 and v[2][0] == F(P(1), "nodes")) or v[0] == "idx" else (v[2] if v[0] == "idx" else None)
+                if v[0] == "idx":
+                    base, ix = v[1], v[2]
+                else:
+                    base, ix = None, None
+                good = False
+                if base == F(P(1), "nodes") and isinstance(ix, tuple):
+                    phis = [t for t in subterms(ix) if isinstance(t, tuple) and t and t[0] == "phi"]
+                    if ix[0] == "unwrap":
+                        good = True   # parent(0) = None arm: unreachable for a node below the root; the reachable arm is checked
+                        seen["node"] -= 1
+                    elif phis:
+                        ph = phis[0]
+                        par = ("bin", "Sub", ("bin", "Shr", ("bin", "Add", ph, mk_const("usize", 1)), mk_const("usize", 1)), mk_const("usize", 1))
+                        init = ph[4]
+                        leafnode = ("bin", "Sub", ("bin", "Add", ("bin", "Shl", mk_const("usize", 1), F(P(1), "depth")), P(3)), mk_const("usize", 1))
+                        ndc = [(a, v2) for a, v2 in p.conds() if a[0] == "b" and a[1][0] == "bin" and a[1][1] == "Eq" and a[1][3] == P(2) and isinstance(a[1][2], tuple) and a[1][2][:2] == ("bin", "Sub")]
+                        nd_ok = bool(ndc) and ndc[0][1] is True and ndc[0][0][1][2][2][0] == "phi" and ndc[0][0][1][2][2][4] == F(P(1), "depth") and cint(ndc[0][0][1][2][3]) == 1
+                        is_par = (ix[:2] == ("bin", "Sub") and cint(ix[3]) == 1 and isinstance(ix[2], tuple) and ix[2][:2] == ("bin", "Shr") and cint(ix[2][3]) == 1
+                                  and ix[2][2] == ("bin", "Add", ph, mk_const("usize", 1)))
+                        good = is_par and init == leafnode and nd_ok
+                        if not good:
+                            why = "the climb is %s from %s with exit test %s; specification: from node 2^depth + index - 1, parent ((i+1)>>1)-1 per level, depth - n levels" % (sh(ix, 80), sh(init, 80), [sh(a[1], 60) for a, _ in ndc])
+                    else:
+                        # closed form: ((2^depth + index) >> (depth - n)) - 1
+                        tot = ("bin", "Shr", ("bin", "Add", ("bin", "Shl", mk_const("usize", 1), F(P(1), "depth")), P(3)), ("bin", "Sub", F(P(1), "depth"), P(2)))
+                        good = ix == ("bin", "Sub", tot, mk_const("usize", 1))
+            if not good and why is None:
+                why = "level n returns %s, specification the node (n, index >> (depth - n)) that covers leaf `index`" % sh(v, 160)
+        if name == "full" and why is None and carried:
+            ph_ok = all(isinstance(v, tuple) and v[:2] == ("bin", "Sub") for v in carried.get("nd", [])) and len(carried.get("idx", [])) >= 1
+            if not ph_ok:
+                why = "loop-carried values: %s" % {k: [sh(x, 60) for x in v] for k, v in carried.items()}
+        if why is None and not (seen["root"] >= 1 and seen["leaf"] >= 1 and seen["node"] >= 1 and seen["err"] >= 2):
+            why = "expected the five arms (two rejections, root, leaf, inner node); found %s" % seen
+        ctx.check(why is None, "R06-5", "%s::get_subtree_root" % name, "bounds rejections; level 0 = root(); level depth = get(index); level n = node (n, index >> (depth - n))", why, loc(it))
+    # Full: parent / first_child index arithmetic of the implicit heap
+    it = fb.one(r"FullMerkleTree::<H>::parent$")
+    ctx.touch(it)
+    eng = Engine(fb, inline=lambda i: False)
+    vals = set()
+    for p in eng.run(it):
+        if p.kind == "return":
+            rv = eng.value_of(p.store, p.ret)
+            cm = cond_map(p)
+            vals.add((sh(rv, 120), tuple(sorted((sh(a, 60), v) for a, v in cm.items()))))
+    want = {("Option::None{}", (("b((p2 Eq 0))", True),)), ("Option::Some{0: (((p2 Add 1) Shr 1) Sub 1)}", (("b((p2 Eq 0))", False),))}
+    ctx.check(vals == want, "R06-5", "full::parent", "None for the root, ((i + 1) >> 1) - 1 otherwise", "parent is %s" % sorted(vals), loc(it))
+
+
 def run(ctx):
     ctx.prefetch(["default", "fixtures"])
     fb = ctx.fb("default")
     check_atomic(ctx, fb, "default")
     check_formulas(ctx, fb)
     check_recompute(ctx, fb)
+    check_delegation(ctx, fb)
+    check_subtree_root(ctx, fb)
     if ctx.tier == "thorough":
         for cfg in ("optimal", "full"):
             f = ctx.fb(cfg)
